@@ -1284,6 +1284,8 @@ func (g *g2l) stmt(o *g2lOut, ind int, s ast.Stmt) {
 		}
 	case *ast.SwitchStmt:
 		g.switchStmt(o, ind, x)
+	case *ast.TypeSwitchStmt:
+		g.typeSwitchStmt(o, ind, x)
 	case *ast.BlockStmt:
 		g.block(o, ind, x.List)
 	case *ast.ExprStmt:
@@ -1475,6 +1477,56 @@ func (g *g2l) forStmt(o *g2lOut, ind int, x *ast.ForStmt) {
 	g.inLoop++
 	g.block(o, ind+1, x.Body.List)
 	g.inLoop--
+}
+
+// `switch e.(type) { case T1: .. case T2, T3: .. default: .. }` without a bound variable: an if-chain over the
+// oracles the target configures per type, callSubst["typeIs:<type text>"] : <type of e> -> Bool
+// (which dynamic types an interface value can have is not visible in the syntax)
+func (g *g2l) typeSwitchStmt(o *g2lOut, ind int, x *ast.TypeSwitchStmt) {
+	if x.Init != nil {
+		g.fail(x, "type switch with init")
+	}
+	es, ok := x.Assign.(*ast.ExprStmt)
+	if !ok {
+		g.fail(x, "type switch that binds a variable")
+	}
+	ta, ok := es.X.(*ast.TypeAssertExpr)
+	if !ok || ta.Type != nil {
+		g.fail(x, "type switch of an unexpected form")
+	}
+	subject := g.expr(ta.X)
+	first := true
+	var def *ast.CaseClause
+	for _, c := range x.Body.List {
+		cc := c.(*ast.CaseClause)
+		if cc.List == nil {
+			def = cc
+			continue
+		}
+		var cs []string
+		for _, e := range cc.List {
+			f, known := g.t.callSubst["typeIs:"+exprText(e)]
+			if !known {
+				g.fail(e, "type switch case %s: no callSubst entry typeIs:%s", exprText(e), exprText(e))
+			}
+			cs = append(cs, "("+f+" "+subject+")")
+		}
+		kw := "else if "
+		if first {
+			kw = "if "
+			first = false
+		}
+		o.line(ind, kw+strings.Join(cs, " || ")+" then")
+		g.block(o, ind+1, cc.Body)
+	}
+	if def != nil {
+		if first {
+			g.block(o, ind, def.Body)
+			return
+		}
+		o.line(ind, "else")
+		g.block(o, ind+1, def.Body)
+	}
 }
 
 func (g *g2l) switchStmt(o *g2lOut, ind int, x *ast.SwitchStmt) {
